@@ -38,7 +38,7 @@ def anchors():
 
 
 def cases(ctx):
-    yield from c11.cases(ctx, random_n=(300, 16 * 4000), thorough_events=4)
+    yield from c11.cases(ctx, random_n=(250, 16 * 4000), thorough_events=4)
 
 
 def with_redundant(timing, n):
